@@ -65,7 +65,9 @@ Definition agree_c (x : hcase) : bool :=
       kind 0  server, no pong arrived after t0: closed by t0 + I + T + 3D, by the heartbeat
               ("ping timeout") or because the transport was closed under it before that;
       kind 1  client, no ping arrived after t0: closed by t0 + I + T + 2D, same reasons;
-      kind 2  live peer: not closed at all during the observation. *)
+      kind 2  live peer: not closed at all during the observation;
+      kind 3/4 as 0/1 when BOTH directions are black-holed: nothing but the heartbeat can have
+              closed the socket, so the reason must be "ping timeout". *)
 Definition ocase := (N * Z * Z * Z * Z * option (Z * N) * Z)%type.
 
 Definition reason_acceptable (k : N) : bool :=
@@ -82,5 +84,37 @@ Definition oracle (x : ocase) : bool :=
            | Some (t, k) => (t <=? t0 + pI + pT + 2 * pD) && reason_acceptable k
            | None => t_end <=? t0 + pI + pT + 2 * pD
            end
-  | _ => match cl with None => true | Some _ => false end
+  | 2%N => match cl with None => true | Some _ => false end
+  | 3%N => match cl with
+           | Some (t, k) => (t <=? t0 + pI + pT + 3 * pD) && (k =? 0)%N
+           | None => t_end <=? t0 + pI + pT + 3 * pD
+           end
+  | _ => match cl with
+           | Some (t, k) => (t <=? t0 + pI + pT + 2 * pD) && (k =? 0)%N
+           | None => t_end <=? t0 + pI + pT + 2 * pD
+           end
+  end.
+
+(** * Live histories as runs of the composed system (Eio/HeartbeatLink.v) *)
+From SioV Require Import Eio.HeartbeatLink.
+
+Definition xev_of (k : N) : xev :=
+  match k with
+  | 0%N => XS SWake | 2%N => XS STake | 3%N => XS STimeout
+  | 10%N => XDeliverPing | 11%N => XDeliverPong | 12%N => XC CRearm | 13%N => XC CTimeout
+  | 7%N => XS SApp | _ => XC CApp
+  end.
+
+(** (I, T, D, lDown, lUp, start, events, t_end): a live scenario's history must be a valid run of
+    the composition under the link bounds measured for it, with both sides still open; when
+    lDown + lUp + 2D < T this is an instance of C14_live_never_killed. *)
+Definition xcase := (Z * Z * Z * Z * Z * Z * list (Z * N) * Z)%type.
+
+Definition agree_x (x : xcase) : bool :=
+  let '(pI, pT, pD, ld, lu, start, evs, t_end) := x in
+  (ld + lu + 2 * pD <? pT) &&
+  match xvalid (mkCfg pI pT pD true) (mkLink ld lu) start
+               (map (fun te => (fst te, xev_of (snd te))) evs) t_end with
+  | Some st => match s_reason (xs st), c_reason (xc st) with None, None => true | _, _ => false end
+  | None => false
   end.
